@@ -136,6 +136,15 @@ class Rig(object):
             if k[0] == "c" and p.name == "DM" and p.dsap == self.cl[k[1]]._tco.addr:
                 self.closing[k].join(10)
         self.reap()
+        # data a server sent right after accept(): the client application reads it at once (the model keeps no receive
+        # queue; what matters is that it arrives - `lost` in the spec - and arrives intact)
+        for c, s in self.cl.items():
+            d = s._tco
+            while d.state.ESTABLISHED and c not in self.thr and len(d.recv_queue) > 0 and d.recv_queue[0].name == "I":
+                got = s.recv()
+                if got != b"early":
+                    raise HarnessError("early data corrupted: %r" % (got,))
+                self.early_got = getattr(self, "early_got", 0) + 1
         self.drain(self.A, self.ab)
         self.log("DeliverA")
 
@@ -152,6 +161,14 @@ class Rig(object):
         self.acc.append(a)
         self.drain(self.B, self.ba)
         self.log("Accept")
+
+    def accept_send(self):
+        """accept() followed at once by send() on the new connection, before any frame leaves"""
+        a = self.L.accept()
+        self.acc.append(a)
+        a.send(b"early", nfc.llcp.MSG_DONTWAIT)
+        self.drain(self.B, self.ba)
+        self.log("AcceptSend")
 
     def close_client(self, c):
         s = self.cl[c]
@@ -217,6 +234,8 @@ def run_conn(seed, listener=True):
                 opts += [("deliver_a",)] * 2
             if cfg["listener"] and len(R.L._tco.recv_queue) > 0 and len(R.acc) < 2:
                 opts.append(("accept",))
+                if seed % 2 == 0:
+                    opts.append(("accept_send",))
             for i, a in enumerate(R.acc):
                 d = a._tco
                 if d.state.ESTABLISHED and ("a", i) not in R.closing and rnd.random() < 0.5:
@@ -245,6 +264,7 @@ CONSTANTS
   LinkMiuB = %d
   MaxAcc = 100
   ListenerPresent = %s
+  EarlyOrder = "cc-first"
 CONSTRAINT Done
 CHECK_DEADLOCK FALSE
 """ % (cfg["backlog"], cfg["linkA"], cfg["linkB"], "TRUE" if listener else "FALSE")
@@ -259,8 +279,12 @@ def stage(ck, quick, seed, tlc, PID):
         if not x.ok:
             ck.violation("spec:LlcpConn:" + ",".join(x.violated or ["?"]), "TLC: %s" % str(x.error_trace)[:1200])
         ck.cover(states=x.distinct, transitions=x.generated)
-    hit, _ = tlc.witnesses("LlcpConn.tla", "MC_LlcpConn_quick.cfg", PID, ["W_Established", "W_Busy", "W_Closed", "W_PeerClosed"])
-    if len(hit) != 4:
+    # the model of the code before the fix "data sent right after accept() overtook the CC" must lose that data
+    e = tlc.run("LlcpConn.tla", "MC_LlcpConn_early.cfg", PID, workers=4, timeout=300)
+    if "NoEarlyLoss" not in e.violated:
+        raise tlc.TLCError("vacuous: the data-first model does not lose the early data")
+    hit, _ = tlc.witnesses("LlcpConn.tla", "MC_LlcpConn_quick.cfg", PID, ["W_Established", "W_Busy", "W_Closed", "W_PeerClosed", "W_EarlyData"])
+    if len(hit) != 5:
         raise tlc.TLCError("vacuous LlcpConn model: %s" % sorted(hit))
     groups = collections.defaultdict(list)
     n = 60 if quick else 1200
